@@ -46,7 +46,10 @@ type Table struct {
 	GateInstalled bool     // root mux: `if readOnly { mux.Use(ReadOnly) }` before every route registration
 	GateNote      string   // why not, when not
 	GateAllowed   []string // methods the ReadOnly condition lets through
-	Middlewares   []string // every middleware met (rendered), for the record
+	// module.go: the provider of chi.Router calls NewRouter(..., cfg.ReadOnly) and nothing in Module reassigns cfg
+	ModulePassesFlag bool
+	ModuleNote       string
+	Middlewares      []string // every middleware met (rendered), for the record
 }
 
 // ChiMethods are the methods chi v5 routes at all (tree.go methodMap); anything else is answered 405 by the mux.
@@ -954,6 +957,80 @@ func (a *analyzer) gate(dir string) error {
 	return nil
 }
 
+// wiring reads func Module(cfg Config) of module.go: the flag the server is configured with must be what NewRouter gets.
+func (a *analyzer) wiring(dir string) error {
+	p, err := a.load(dir)
+	if err != nil {
+		return err
+	}
+	fd, ok := p.funcs["Module"]
+	if !ok || fd.Body == nil {
+		return fmt.Errorf("%s: no function Module", dir)
+	}
+	if fd.Type.Params == nil || len(fd.Type.Params.List) != 1 || len(fd.Type.Params.List[0].Names) != 1 || render(fd.Type.Params.List[0].Type) != "Config" {
+		return fmt.Errorf("%s: Module does not take one Config", p.pos(fd))
+	}
+	cfg := fd.Type.Params.List[0].Names[0].Name
+	rooted := func(e ast.Expr) bool {
+		for {
+			switch x := e.(type) {
+			case *ast.Ident:
+				return x.Name == cfg
+			case *ast.SelectorExpr:
+				e = x.X
+			case *ast.ParenExpr:
+				e = x.X
+			case *ast.StarExpr:
+				e = x.X
+			case *ast.IndexExpr:
+				e = x.X
+			default:
+				return false
+			}
+		}
+	}
+	calls, why := 0, ""
+	ast.Inspect(fd.Body, func(n ast.Node) bool {
+		switch x := n.(type) {
+		case *ast.AssignStmt:
+			for _, l := range x.Lhs {
+				if rooted(l) {
+					why = p.pos(x) + ": Module assigns " + render(l) + " before the router is built"
+				}
+			}
+		case *ast.IncDecStmt:
+			if rooted(x.X) {
+				why = p.pos(x) + ": Module changes " + render(x.X)
+			}
+		case *ast.UnaryExpr:
+			if x.Op == token.AND && rooted(x.X) {
+				why = p.pos(x) + ": Module takes the address of " + render(x.X)
+			}
+		case *ast.FuncLit:
+			for _, f := range x.Type.Params.List {
+				for _, nm := range f.Names {
+					if nm.Name == cfg {
+						why = p.pos(x) + ": a closure parameter shadows " + cfg
+					}
+				}
+			}
+		case *ast.CallExpr:
+			if id, ok := x.Fun.(*ast.Ident); ok && id.Name == "NewRouter" {
+				calls++
+				if len(x.Args) == 0 || render(x.Args[len(x.Args)-1]) != cfg+".ReadOnly" {
+					why = p.pos(x) + ": NewRouter is not given " + cfg + ".ReadOnly"
+				}
+			}
+		}
+		return true
+	})
+	if calls != 1 {
+		return fmt.Errorf("%s: Module calls NewRouter %d times: not understood", p.pos(fd), calls)
+	}
+	a.tab.ModulePassesFlag, a.tab.ModuleNote = why == "", why
+	return nil
+}
+
 // Analyze reads internal/api of the working tree at repo.
 func Analyze(repo string) (*Table, error) {
 	mod, err := os.ReadFile(filepath.Join(repo, "go.mod"))
@@ -976,6 +1053,9 @@ func Analyze(repo string) (*Table, error) {
 	}
 	lv := &level{nodes: &a.tab.Routes, prefix: ""}
 	if err := a.newRouter(api, lv, true); err != nil {
+		return nil, err
+	}
+	if err := a.wiring(api); err != nil {
 		return nil, err
 	}
 	if !a.tab.GateInstalled && a.tab.GateNote == "" {
